@@ -115,6 +115,9 @@ type dlRec struct {
 	entered int32
 	mu      sync.Mutex
 	obs     []dlObs
+	// real-server lanes: when larking's ServeHTTP was entered, and on which goroutine
+	serveEnter time.Time
+	reqGid     int64
 }
 
 type dlSvc struct {
